@@ -528,7 +528,7 @@ func judge(p Property, meta Meta, tier string, seed int64, n int, agg *aggregate
 			continue // at most two replay files per witness key
 		}
 		os.MkdirAll(replayDir, 0755)
-		path := filepath.Join(replayDir, fmt.Sprintf("%s-seed%d-case%d-%d.json", tier, seed, fv.Index, seenKey[fv.V.Key]))
+		path := filepath.Join(replayDir, fmt.Sprintf("%s-seed%d-case%d-%d.json", tier, seed, fv.Index, len(lines)+1))
 		rf := map[string]interface{}{
 			"property": meta.ID, "tier": tier, "seed": seed, "index": fv.Index,
 			"key": fv.V.Key, "msg": fv.V.Msg, "detail": fv.V.Detail,
